@@ -5,6 +5,7 @@ import (
 	"context"
 	"net"
 	"runtime"
+	"sync/atomic"
 	"time"
 
 	modbus "github.com/aldas/go-modbus-client"
@@ -54,6 +55,13 @@ type Outcome struct {
 	Stacks  string
 	Elapsed time.Duration
 }
+
+// Hangs counts calls that did not return within the watchdog in this process. Every such call costs >= 20 s, so the
+// checks stop scheduling new cases after a few (the violation is established by then).
+var Hangs atomic.Int64
+
+// TooManyHangs reports whether the remaining cases should be skipped.
+func TooManyHangs() bool { return Hangs.Load() >= 3 }
 
 // Session is one client instance on one scripted transport; several calls can be made on it.
 type Session struct {
@@ -126,13 +134,15 @@ func (s *Session) Do(req packet.Request, script xport.Script) Outcome {
 	}()
 	select {
 	case <-done:
-	case <-time.After(s.rt*20 + 20*time.Second):
-		// watchdog: not a verdict by itself; the caller decides with the transport log
+	case <-time.After(s.rt*100 + 8*time.Second):
+		// watchdog: at least 100x the configured total read timeout plus 8 s; then the goroutine dump is taken and the
+		// call gets another 12 s. Only a call that is still not back after both waits is reported as hung (with the stacks).
 		buf := make([]byte, 1<<16)
 		n := runtime.Stack(buf, true)
 		select {
 		case <-done:
-		case <-time.After(40 * time.Second):
+		case <-time.After(12 * time.Second):
+			Hangs.Add(1)
 			return Outcome{Conn: s.Conn, Events: s.Conn.Events(), Hung: true, Stacks: string(buf[:n])}
 		}
 	}
